@@ -10,7 +10,8 @@ from .common import DIMSETS, sym_mesh
 
 META = dict(
     bounds=dict(
-        quick=dict(ndim="1..3", n="<=3 per axis", nvdim="1..3", labels="default / custom / none",
+        quick=dict(also="callable that turns invalid after the first cell; same-count source fields; line values against point sampling",
+                   ndim="1..3", n="<=3 per axis", nvdim="1..3", labels="default / custom / none",
                    subregions="none, two disjoint, two overlapping, three with one nested (cell-aligned)",
                    line_points="2..4", specs="constant, vector, per-cell array, (*n)-shaped scalar array, callable (UF), dict, field"),
         thorough=dict(ndim="1..4", n="<=4 per axis", nvdim="1..4", labels="default / custom / none",
